@@ -140,11 +140,33 @@ def gen_spec(seed: int, config: str | None = None) -> dict:
         nodes.append({"name": f"r{i}", "role": role, "mode": mode, "script": [], "pathform": rng.choice(["str", "str", "Path", "relative"])})
         if mode == "async" and rng.random() < 0.25:
             nodes[-1]["consumers"] = 2
+        if mode == "async" and rng.random() < 0.5:
+            # the long-running poller: ONE receive_async() stays alive while the writers write and for three poll
+            # intervals after the last send completed (no fresh generator for the final drain)
+            nodes[-1]["final"] = "continuous"
     senders = [n for n in nodes if n["role"] in ("writer", "both")]
     trig_left = 1 if rng.random() < 0.02 else 0
+    # in-process mode: all nodes are threads of ONE process (one pid, one set of module globals), pre-empted between
+    # any two lines of the library, and payloads of different sends share sub-containers by identity (a common META dict)
+    inproc = rng.random() < 0.12
+    shared_vals = []
+    if inproc:
+        n_sends = min(n_sends, 6)
+        for _ in range(rng.choice([1, 1, 2])):
+            shared_vals.append(rng.choice([
+                {"host": gen_string(rng, tricky), "tags": {"env": "prod", "n": [1, 2, [3]]}},
+                [gen_string(rng, tricky), {"k": [gen_string(rng, tricky)]}, [[0]]],
+                {"a": {"b": {"c": [gen_string(rng, tricky), 1.5, None]}}, "l": list(range(rng.choice([3, 12])))},
+            ]))
     for _ in range(n_sends):
         node = rng.choice(senders)
         data_v = gen_value(rng, tricky)
+        if inproc:
+            if len(json.dumps(data_v)) > 1500:
+                data_v = gen_string(rng, tricky)[:200]
+            if rng.random() < 0.7:
+                sv = rng.choice(shared_vals)
+                data_v = rng.choice([lambda: {"meta": sv, "x": data_v}, lambda: [sv, data_v], lambda: sv, lambda: {"m": [sv, sv]}])()
         if trig_left and rng.random() < 0.5:
             trig_left -= 1
             data_v = rng.choice(KNOWN_TRIGGERS)[1](rng)
@@ -249,7 +271,10 @@ def gen_spec(seed: int, config: str | None = None) -> dict:
     big = any(z > 2000 for z in sizes)
     if big and knobs["read_chunk"]:
         knobs["read_chunk"] = max(knobs["read_chunk"], 1024 if max(sizes) < 100_000 else 65536)  # byte-at-a-time reads of a 20 KB record only burn the step budget
-    return {"property": PROP, "config": config, "nodes": nodes, "faults": faults, "clock": clock, "knobs": knobs}
+    spec = {"property": PROP, "config": config, "nodes": nodes, "faults": faults, "clock": clock, "knobs": knobs}
+    if inproc:
+        spec["inproc"] = {"mean_gap": bug.choice([2, 5, 20, 100])}
+    return spec
 
 
 # ------------------------------------------------------------------------------- independent record check
@@ -311,10 +336,13 @@ class SimClock:
 class SimOs:
     """Replacement for the name `os` in tatsu.util.misc: every simulated node is its own process."""
 
-    def __init__(self, sim: Sim):
+    def __init__(self, sim: Sim, one_process: bool = False):
         self._sim = sim
+        self._one = one_process
 
     def getpid(self):
+        if self._one:
+            return 4000
         me = self._sim.me()
         return 4000 + (me.index if me is not None else 99)
 
@@ -351,6 +379,7 @@ class Env(fsseam.FsEnv):
         self.spec = spec
         self.hist = hist
         self.write_buffer = spec["knobs"].get("write_buffer")
+        self.pool = {}  # in-process mode: equal sub-containers of the payloads are one object
         self.reads = {}  # node -> count of raw reads
         self.wfault = {}
         self.rfault = {}
@@ -479,6 +508,9 @@ class Env(fsseam.FsEnv):
         self.sim.log("read", name, got)
         if got == 0 and self.hist.partial_now:
             self.sim.probe("reader_hit_eof_while_file_cut_inside_record")
+        if got == 0:
+            # "saw end of file" and "acts on it" are two instants: anything may be appended in between
+            self.sim.yield_point("eof")
 
 
 class History:
@@ -506,6 +538,44 @@ def _to_plain(x):
 
 class ConsumerFailed(Exception):
     pass
+
+
+def intern_value(x, pool, top=False):
+    if isinstance(x, (dict, list)) and x and not top:
+        k = ("d" if isinstance(x, dict) else "l") + json.dumps(x, sort_keys=True)
+        if k in pool:
+            return pool[k]
+    if isinstance(x, dict):
+        obj = {kk: intern_value(v, pool) for kk, v in x.items()}
+    elif isinstance(x, list):
+        obj = [intern_value(v, pool) for v in x]
+    else:
+        return x
+    if x and not top:
+        pool[k] = obj
+    return obj
+
+
+def make_line_tracer(sim: Sim, mean: int):
+    """Pre-emption between any two lines of the library for a node that is a thread of the one simulated process."""
+    root = os.path.dirname(os.path.abspath(sys.modules["tatsu"].__file__)) + os.sep
+    st = {"left": 1 + sim.choose("gap", 2 * mean)}
+
+    def local(frame, event, arg):
+        if event == "line":
+            st["left"] -= 1
+            if st["left"] <= 0:
+                st["left"] = 1 + sim.choose("gap", 2 * mean)
+                sim.probe("switch_point_between_library_lines")
+                sim.yield_point("line")
+        return local
+
+    def glob(frame, event, arg):
+        if event == "call" and frame.f_code.co_filename.startswith(root):
+            return local
+        return None
+
+    return glob
 
 
 class NodeRunner:
@@ -572,6 +642,13 @@ class NodeRunner:
             pass
         self.sim.log("deliver", self.node["name"], self.inc["idx"], serial, str(d["id"]))
 
+    def payload(self, data):
+        """What this node hands to send(): a private copy; in in-process mode equal sub-containers of different sends
+        are ONE object (identity sharing is something only threads of one process can have)."""
+        if not self.spec.get("inproc"):
+            return copy.deepcopy(data)
+        return intern_value(data, self.env.pool, top=True)
+
     # operations
     def do_send(self, op):
         name = self.node["name"]
@@ -583,7 +660,7 @@ class NodeRunner:
         self.hist.cur_send[name] = st
         self.sim.log("send-invoke", name, op["serial"])
         try:
-            p = self.q.send(to=op["to"], data=copy.deepcopy(op["data"]))
+            p = self.q.send(to=op["to"], data=self.payload(op["data"]))
             rec["acked"] = True
             rec["id"] = p.id
         except OSError as e:
@@ -685,8 +762,9 @@ class NodeRunner:
             self.sim.probe("generator_resumed_after_other_receive")
             self.do_recv({"op": "recv", "_gen": g})
 
-    def run_async(self, ns, final=False):
-        """Run the async consumer for `ns` of simulated time on a fresh virtual-time loop, then cancel it."""
+    def run_async(self, ns, final=False, until_done=False):
+        """Run the async consumer for `ns` of simulated time on a fresh virtual-time loop, then cancel it.
+        until_done: first keep it running until every writer has finished, then for `ns` more."""
         name = self.node["name"]
         sim = self.sim
         sel = SimSelector()
@@ -707,6 +785,18 @@ class NodeRunner:
             ts = [loop.create_task(consume(), name=f"consume-{name}-{i}") for i in range(self.node.get("consumers", 1))]
             if len(ts) > 1:
                 sim.probe("two_async_consumers_on_one_queue")
+            if until_done:
+                guard = 0
+                while not self.writers_done() and not any(t.done() for t in ts):
+                    await asyncio.sleep(POLL_NS / 1e9 / 2)
+                    guard += 1
+                    if guard > 100_000:
+                        raise HarnessError("continuous consumer: writers never finish")
+                if not any(t.done() for t in ts):
+                    # "after the last fault": from here on the reads of this node are fault-free
+                    self.hist.in_final.add(name)
+                    self.inc["final"] = True
+                    sim.probe("continuous_consumer_outlived_writers")
             await asyncio.sleep(ns / 1e9)
             # a consumer that ended by itself can only have ended by raising (receive_async never returns)
             ended = [t for t in ts if t.done()]
@@ -756,6 +846,15 @@ class NodeRunner:
                 raise HarnessError("wait_writers: writers never finish")
 
     def main(self):
+        if not self.spec.get("inproc"):
+            return self._main()
+        sys.settrace(make_line_tracer(self.sim, self.spec["inproc"]["mean_gap"]))
+        try:
+            return self._main()
+        finally:
+            sys.settrace(None)
+
+    def _main(self):
         node = self.node
         role = node["role"]
         sim = self.sim
@@ -797,6 +896,11 @@ class NodeRunner:
             self.done_sending = True
         if role in ("reader", "both"):
             self.finished_script = True
+            if node.get("mode") == "async" and node.get("final") == "continuous":
+                self.run_async(3 * POLL_NS, final=True, until_done=True)
+                if self.inc["final"]:
+                    return
+                # the poller died of an injected read error while faults were still flowing: fall back to a fresh drain
             self.wait_writers()
             # bounded liveness: one more receive() (sync) or 3 poll intervals (async) after the last fault
             self.do_resume()
@@ -913,7 +1017,7 @@ def patched(env: Env, clock: SimClock):
     old_os = misc.os
     io.open = fsseam.make_open(env)
     misc.time = clock
-    misc.os = SimOs(env.sim)
+    misc.os = SimOs(env.sim, one_process=bool(env.spec.get("inproc")))
     if hasattr(misc, "_id_serial"):
         misc._id_serial = itertools.count()  # process-wide id state starts fresh in every run
     try:
@@ -966,7 +1070,7 @@ _MODULE_CODE: dict = {}
 def run(spec: dict, decider: Decider, keep_events: bool = False) -> RunResult:
     rr = RunResult()
     fresh_modules()
-    sim = Sim(decider, step_cap=30_000, keep_events=keep_events)
+    sim = Sim(decider, step_cap=400_000 if spec.get("inproc") else 30_000, keep_events=keep_events)
     root = _SCRATCH["dir"] or os.getcwd()
     _SCRATCH["n"] += 1
     qdir = os.path.join(root, "q")
